@@ -1310,7 +1310,8 @@ locate_out (program_t * prog)
   prog->strings = (char **) DIFF (prog->strings, prog);
   prog->variable_table = (char **) DIFF (prog->variable_table, prog);
   prog->variable_types = (unsigned short *) DIFF (prog->variable_types, prog);
-  prog->inherit = (inherit_t *) DIFF (prog->inherit, prog);
+  if (prog->inherit)		/* NULL without inherits: nothing to relocate (and no arithmetic on a null pointer) */
+    prog->inherit = (inherit_t *) DIFF (prog->inherit, prog);
   prog->classes = (class_def_t *) DIFF (prog->classes, prog);
   prog->class_members =
     (class_member_entry_t *) DIFF (prog->class_members, prog);
@@ -1352,7 +1353,8 @@ locate_in (program_t * prog)
   prog->strings = (char **) ADD (prog->strings, prog);
   prog->variable_table = (char **) ADD (prog->variable_table, prog);
   prog->variable_types = (unsigned short *) ADD (prog->variable_types, prog);
-  prog->inherit = (inherit_t *) ADD (prog->inherit, prog);
+  if (prog->inherit)
+    prog->inherit = (inherit_t *) ADD (prog->inherit, prog);
   prog->classes = (class_def_t *) ADD (prog->classes, prog);
   prog->class_members =
     (class_member_entry_t *) ADD (prog->class_members, prog);
